@@ -260,18 +260,21 @@ def check_text(t, im, mo, viol, disag, stats, origin="text"):
     if not parsing.in_model_text(t):
         stats["out_of_model"] += 1
         return
-    for k in FIELDS:
-        if norm(im[k]) != norm(mo[k]):
-            disag.append(("corr:" + k, "%s of %r: implementation %s, model %s" % (k, t, json.dumps(norm(im[k])), json.dumps(norm(mo[k]))),
-                          dict(case, field=k, impl=norm(im[k]), model=norm(mo[k]))))
-            return
-    for k in ("re", "fix", "eq"):
-        for i in range(3):
-            if norm(im[k][i]) != norm(mo[k][i]):
-                disag.append(("corr:%s%d" % (k, i), "%s[%d] of %r: implementation %s, model %s" % (
-                    k, i, t, json.dumps(norm(im[k][i])), json.dumps(norm(mo[k][i]))),
-                    dict(case, field=k, idx=i, impl=norm(im[k][i]), model=norm(mo[k][i]))))
+    def correspondence():
+        for k in FIELDS:
+            if norm(im[k]) != norm(mo[k]):
+                disag.append(("corr:" + k, "%s of %r: implementation %s, model %s" % (k, t, json.dumps(norm(im[k])), json.dumps(norm(mo[k]))),
+                              dict(case, field=k, impl=norm(im[k]), model=norm(mo[k]))))
                 return
+        for k in ("re", "fix", "eq"):
+            for i in range(3):
+                if norm(im[k][i]) != norm(mo[k][i]):
+                    disag.append(("corr:%s%d" % (k, i), "%s[%d] of %r: implementation %s, model %s" % (
+                        k, i, t, json.dumps(norm(im[k][i])), json.dumps(norm(mo[k][i]))),
+                        dict(case, field=k, idx=i, impl=norm(im[k][i]), model=norm(mo[k][i]))))
+                    return
+
+    correspondence()
     # direct check of the property on the real code, for well-formed parsed segments
     if "ok" not in im["esc"] or not mo.get("wf") or origin not in ("written", "quoted"):
         return
@@ -418,7 +421,6 @@ def segs_chunk(lists, full=True):
             elif norm(im) != norm(mo[pkey]):
                 disag.append(("corr:parse-written", "segments of written text %r: implementation %s, model %s" % (
                     text, json.dumps(norm(im)), json.dumps(norm(mo[pkey]))), dict(case, impl=norm(im), model=norm(mo[pkey]))))
-                continue
             if mo["wf"]:
                 if norm(im) != {"ok": segs}:
                     viol.append(("parse-write:" + form + ":" + seg_kinds(segs),
